@@ -5,6 +5,9 @@ Sub-checks
                     save+load / pickle / synchronize / churn operations) advanced in ONE thread by a generated
                     schedule of single operations (step granular) vs each program run alone: final states bitwise equal.
   threads           the same programs, one Python thread each (ctypes releases the GIL inside C calls) vs alone.
+  threads_stress    2-4 threads running the SAME integrator configuration (those with cached coordinates / per-call
+                    scratch first) on different systems with 1000-2000 test particles, a few hundred short
+                    integrate() calls each, started together, vs alone: the C calls overlap all the time.
   interleave512 / threads512   the same on the avx512 build with WHFast512 among the integrators.
   server            a simulation integrating with the built-in web server running while a client thread GETs
                     /simulation at generated offsets: every response is a complete snapshot equal to the state
@@ -46,7 +49,7 @@ RULE = ("Cases are K=2-8 simulation programs: a generated planetary system (or a
         "state, and the served run's final state equals an unserved twin's; server_sync: the same on short runs with "
         "1000-2500 test particles and a client requesting continuously; server_fd: EBADF on a descriptor owned by the "
         "client or a watcher thread.  Every program starts with 1-3 steps.  Non-trivial = (interleave) >= 2 switches "
-        "between different simulations before the last one finishes and (threads) >= 2 different integrator types; "
+        "between different simulations before the last one finishes and (threads) >= 2 different integrator types (threads_stress: every case); "
         "(server) >= 1 response taken strictly inside the run (0 < steps_done < final); distinct by case hash.")
 ASSUMPTIONS = [
     "a program 'run alone' is executed in a fresh process forked from a worker that never ran a simulation (no shared hidden state with the run under test)",
@@ -123,6 +126,45 @@ def program(draw, with512=False):
             # every program starts by stepping: an integrator's coordinate cache that was allocated (by synchronize)
             # but never filled is serialised as uninitialised heap bytes, which are not state
             "ops": [["steps", draw(st.integers(1, 3))]] + draw(st.lists(op, min_size=0, max_size=6))}
+
+
+STRESS_CFGS = [
+    # (config, weight of one call relative to WHFast) - same family in all threads; those with per-call scratch
+    # space or cached coordinates first
+    ({"integrator": "whfast", "family": "whfast", "set": [["ri_whfast.safe_mode", 0], ["ri_whfast.keep_unsynchronized", 1]]}, 1),
+    ({"integrator": "whfast", "family": "whfast", "set": [["ri_whfast.coordinates", "democraticheliocentric"],
+                                                          ["ri_whfast.safe_mode", 0], ["ri_whfast.keep_unsynchronized", 1]]}, 1),
+    ({"integrator": "whfast", "family": "whfast", "set": [["ri_whfast.corrector", 3], ["ri_whfast.safe_mode", 0],
+                                                          ["ri_whfast.keep_unsynchronized", 1]]}, 2),
+    ({"integrator": "saba", "family": "saba", "set": [["ri_saba.type", "2"], ["ri_saba.safe_mode", 0],
+                                                      ["ri_saba.keep_unsynchronized", 1]]}, 2),
+    ({"integrator": "whfast", "family": "whfast", "set": [["ri_whfast.safe_mode", 1]]}, 1),
+    ({"integrator": "whfast", "family": "whfast", "set": [["ri_whfast.kernel", "lazy"], ["ri_whfast.safe_mode", 1]]}, 2),
+    ({"integrator": "mercurius", "family": "mercurius", "set": [["ri_mercurius.safe_mode", 0]]}, 2),
+    ({"integrator": "ias15", "family": "ias15", "set": []}, 8),
+    ({"integrator": "trace", "family": "trace", "set": []}, 3),
+    ({"integrator": "bs", "family": "bs", "set": [["ri_bs.eps_rel", 1e-8], ["ri_bs.eps_abs", 1e-8]]}, 30),
+    ({"integrator": "leapfrog", "family": "leapfrog", "set": []}, 1),
+]
+
+
+@st.composite
+def stress_case(draw):
+    """K threads running the same integrator configuration on different data, each with 1000-2000 test particles
+    and a few hundred short integrate() calls: a C call lasts long enough for the calls of different threads to
+    overlap all the time"""
+    cfg, weight = draw(st.sampled_from(STRESS_CFGS[:4] * 2 + STRESS_CFGS[4:]))
+    K = draw(st.integers(2, 4))
+    ncalls = max(6, draw(st.integers(150, 300)) // weight)
+    progs = []
+    for k in range(K):
+        sy = draw(S.hierarchical_system(nmin=2, nmax=3))
+        progs.append({"system": sy, "cfg": cfg, "dt_frac": draw(st.sampled_from([0.05, 0.02])), "rand_seed": k + 1,
+                      "megno": False,
+                      "cloud": {"n": draw(st.integers(1000, 2000)) // (4 if weight >= 8 else 1),
+                                "da": 0.002, "dph": draw(S.floats(0.05, 0.5))},
+                      "ops": [["steps", 1], ["burst", ncalls]]})
+    return {"programs": progs, "schedule": [], "stress": True}
 
 
 def case_strategy(with512):
@@ -211,6 +253,11 @@ def prog_iter(prog, tag, scratch, out):
                         sim.stop()
                 sim.heartbeat = limiter
                 sim.integrate(sim.t + (o[1] - 0.5) * sim.dt, exact_finish_time=0)
+            elif kind == "burst":
+                # many short integrate() calls, each ending in a synchronisation (an output): per-call scratch space
+                # of the integrator is exercised continuously while the other threads do the same
+                for _ in range(o[1]):
+                    sim.integrate(sim.t + 1.5 * sim.dt, exact_finish_time=0)
             elif kind == "copy":
                 sim = sim.copy()
             elif kind == "saveload":
@@ -546,7 +593,7 @@ def run_threads(case, ctx):
         raise RuntimeError("thread failed: %r" % errs)
     compare(case, alone, [o[0] for o in outs], ctx, "run concurrently in threads")
     fams = classes(case, ctx)
-    ctx.nontrivial(len(fams) >= 2)
+    ctx.nontrivial(len(fams) >= 2 or bool(case.get("stress")))
 
 
 # ---------------------------------------------------------------------------------------
@@ -928,6 +975,8 @@ def subs(tier):
     out = [
         Sub("interleave", run_interleave, strategy=case_strategy(False), quick=800, thorough=16000, shards_quick=8),
         Sub("threads", run_threads, strategy=case_strategy(False), quick=600, thorough=10000, shards_quick=4,
+            shards_thorough=8),
+        Sub("threads_stress", run_threads, strategy=stress_case(), quick=24, thorough=240, shards_quick=4,
             shards_thorough=8),
         Sub("server", run_server, strategy=server_case, quick=320, thorough=4000, shards_quick=8),
         Sub("server_fd", run_server_fd, strategy=server_fd_case, quick=64, thorough=1200, shards_quick=8),
